@@ -377,7 +377,7 @@ def reqClassifier : Prods :=
   reqPadding ++
   [("classifier", ["data_prefix"]), ("classifier", ["modifier", "data_prefix"]),
    ("classifier", ["classifier", "NUMBER"]), ("classifier", ["classifier", "particle_type"]),
-   ("data_prefix", ["TEXT"]), ("data_prefix", ["KEYWORD"]), ("data_prefix", ["PARTICLE"]), ("modifier", ["*"]),
+   ("data_prefix", ["TEXT"]), ("data_prefix", ["KEYWORD"]), ("data_prefix", ["PARTICLE"]), ("modifier", ["*"]), ("modifier", ["PARTICLE_SPECIAL"]),
    ("particle_type", [":", "part"]), ("particle_type", ["particle_type", ",", "part"]), ("part", ["PARTICLE"]),
    ("param_seperator", ["padding"]), ("param_seperator", ["equals_sign"]),
    ("param_seperator", ["padding", "equals_sign"]), ("equals_sign", ["="]), ("equals_sign", ["=", "padding"])]
@@ -403,20 +403,24 @@ theorem particles_snoc : ∀ (rest : List String) (w : List String), Der P "part
     simpa [List.append_assoc] using this
 
 theorem classifier_der (c : Classifier) (hwf : c.WF = true) : Der P "classifier" c.classes := by
+  have hw : (c.nameCls = "TEXT" ∨ c.nameCls = "KEYWORD" ∨ c.nameCls = "PARTICLE") ∧
+      (c.starCls = "*" ∨ c.starCls = "PARTICLE_SPECIAL") := by
+    simpa [Classifier.WF] using hwf
   have hprefix : Der P "data_prefix" [c.nameCls] := by
-    have : c.nameCls = "TEXT" ∨ c.nameCls = "KEYWORD" ∨ c.nameCls = "PARTICLE" := by
-      simpa [Classifier.WF] using hwf
-    rcases this with h | h | h <;> rw [h]
+    rcases hw.1 with h | h | h <;> rw [h]
     · exact Der.rule (hP (by decide : ("data_prefix", ["TEXT"]) ∈ reqClassifier)) (.tok .nil)
     · exact Der.rule (hP (by decide : ("data_prefix", ["KEYWORD"]) ∈ reqClassifier)) (.tok .nil)
     · exact Der.rule (hP (by decide : ("data_prefix", ["PARTICLE"]) ∈ reqClassifier)) (.tok .nil)
-  have h0 : Der P "classifier" ((if c.star then ["*"] else []) ++ [c.nameCls]) := by
+  have h0 : Der P "classifier" ((if c.star then [c.starCls] else []) ++ [c.nameCls]) := by
     cases c.star
     · exact (Der.rule (hP (by decide : ("classifier", ["data_prefix"]) ∈ reqClassifier)) (.nt hprefix .nil)).cast (by simp)
-    · have hm : Der P "modifier" ["*"] := Der.rule (hP (by decide : ("modifier", ["*"]) ∈ reqClassifier)) (.tok .nil)
+    · have hm : Der P "modifier" [c.starCls] := by
+        rcases hw.2 with h | h <;> rw [h]
+        · exact Der.rule (hP (by decide : ("modifier", ["*"]) ∈ reqClassifier)) (.tok .nil)
+        · exact Der.rule (hP (by decide : ("modifier", ["PARTICLE_SPECIAL"]) ∈ reqClassifier)) (.tok .nil)
       exact (Der.rule (hP (by decide : ("classifier", ["modifier", "data_prefix"]) ∈ reqClassifier))
         (.nt hm (.nt hprefix .nil))).cast (by simp)
-  have h1 : Der P "classifier" ((if c.star then ["*"] else []) ++ [c.nameCls] ++
+  have h1 : Der P "classifier" ((if c.star then [c.starCls] else []) ++ [c.nameCls] ++
       Classifier.numberClasses c.number) := by
     cases c.number with
     | none => simpa [Classifier.numberClasses] using h0
